@@ -144,8 +144,8 @@ Lemma np_to_bigint c : 1 <= cbits c -> np (to_bigint c).
 Proof. intros. unfold to_bigint. apply np_bind; [apply np_usub; assumption|intro; apply np_if; apply np_ok]. Qed.
 
 Ltac np_tac :=
-  repeat (apply np_if || (apply np_bind; [|intro]) || apply np_err || apply np_ok
-          || (apply np_usub; cbn [cbits]; lia) || (apply np_to_bigint; cbn [cbits]; lia)).
+  repeat ((apply np_usub; cbn [cbits]; lia) || (apply np_to_bigint; cbn [cbits]; lia)
+          || apply np_if || (apply np_bind; [|intro]) || apply np_err || apply np_ok).
 
 Theorem c_bin_no_panic : forall o w a b, 1 <= w -> c_bin o (mkc w a) (mkc w b) <> Panic.
 Proof.
